@@ -19,7 +19,7 @@ from smpl_extract.util.fat import RequestedInvalidSector
 from smpl_extract.util.constructs import SafeListConstruct
 import smpl_extract.roland.s7xx.partial_entry as pe
 from vf.absfile import AbsFile
-from vf.util import conc
+from vf.util import conc, untraced
 
 CNT = [0]
 ENTRY = 24
@@ -110,24 +110,65 @@ def h_align(n: int, bad: int, consumed: int, exc: int, slack: int) -> int:
     return 1 if got == want else 0
 
 
-# ------------------------------------------------------------------ one symbolic byte through the real construct parser
-class _Sat:
-    def get_segment(self, start):
-        return AbsFile(8192)
+# ------------------------------------------------------------------ one symbolic byte through the real construct parsers
+import struct as _struct
+from smpl_extract.akai.sat import SegmentAllocationTable
+from smpl_extract.akai.volume import VolumeBodyConstruct
+from smpl_extract.akai.data_types import VolumeType
+from smpl_extract.util.fat import SectorLink
+
+SS = 8192
+NFILES = 4
 
 
-def _entry(name, typ, size, start):
-    return char_ascii_to_akai(name.ljust(12)) + bytes(4) + bytes([typ]) + size.to_bytes(3, "little") + start.to_bytes(2, "little") + bytes(2)
+def _name(text):
+    return char_ascii_to_akai(text.ljust(12))
 
 
-BASE = _entry("AAA", 0x73, 300, 5) + _entry("BBB", 0x73, 400, 6) + _entry("CCC", 0xf3, 500, 7) + _entry("DDD", 0xf0, 600, 8) + bytes(48)
+def _sample_file(name, pcm):
+    count = len(pcm) // 2
+    h = bytes([3, 0, 60]) + _name(name) + bytes(4) + bytes([2, 0, 0]) + bytes(4)
+    h += _struct.pack("<III", count, 0, count) + bytes(12 * 8) + bytes(4) + _struct.pack("<H", 44100)
+    return h + pcm
 
 
-def _parse_table(tbl):
-    ad = fe.FileEntriesAdapter(_Sat(), fe.FileEntryConstruct)
-    ctx = Container(_elem_parent=None, _elem_routines={}, sat=_Sat())
-    ents = ad._parse(io.BytesIO(tbl), ctx, "")
-    return [(e.name, int(e.file_type)) for e in ents]
+def _build_volume():
+    """a tiny concrete AKAI volume: file table in sector 1, four one-sector sample files in sectors 2..5"""
+    sector_cnt = 2 + NFILES + 2
+    image = bytearray(sector_cnt * SS)
+    table = bytearray()
+    files = []
+    types = [0xF3, 0x73, 0xF3, 0x73]
+    for i in range(NFILES):
+        name = "SAMPLE %d" % i
+        pcm = bytes(((i * 37 + j) & 0xFF) for j in range(64))
+        content = _sample_file(name, pcm)
+        image[(2 + i) * SS:(2 + i) * SS + len(content)] = content
+        table += _name(name) + bytes(4) + bytes([types[i]]) + len(content).to_bytes(3, "little") + _struct.pack("<H", 2 + i) + bytes(2)
+        files.append((name, pcm))
+    image[SS:SS + len(table)] = table
+    return image, files, sector_cnt
+
+
+_IMAGE, _FILES, _SECTORS = _build_volume()
+
+
+def _list_volume(image):
+    """names and audio of every sample the real parsers list for the volume (ls + export of the directory)"""
+    stream = io.BytesIO(bytes(image))
+    sat = SegmentAllocationTable(stream, _SECTORS, [SectorLink() for _ in range(_SECTORS)])
+    volume = Volume(name="VOL", volume_type=VolumeType.VOLUME_S3000, path=["VOL"])
+    body = VolumeBodyConstruct.parse_stream(sat.get_segment(1), _=Container(sat=sat), sat=sat, _elem_parent=volume, _elem_routines={})
+    volume.file_entries = body.file_entries
+    out = []
+    for f in volume.files:
+        ds = getattr(f, "_data_stream", None)
+        if ds is None:
+            out.append((f.name, None))
+            continue
+        ds.seek(0, 0)
+        out.append((f.name, ds.readall()))
+    return out
 
 
 def h_byte(entry: int, off: int, b: int) -> int:
@@ -137,18 +178,18 @@ def h_byte(entry: int, off: int, b: int) -> int:
     """
     CNT[0] += 1
     entry, off, b = conc(entry, 1, 2), conc(off, 0, 23), conc(b, 0, 255)     # concrete per path: the parser works on real bytes
-    want = _parse_table(BASE)
-    pos = entry * ENTRY + off
-    tbl = BASE[:pos] + bytes([b]) + BASE[pos + 1:]
-    got = _parse_table(tbl)
-    victim = want[entry][0]
-    others_want = [x for i, x in enumerate(want) if i != entry]
-    # every other item is still listed under its original name and type, in order; at most the damaged one changes
-    others_got = [x for x in got if x in others_want]
-    if others_got != others_want:
-        return 0
-    if len(got) > len(want):
-        return 0
+    with untraced():                         # everything is concrete from here on
+        dmg = bytearray(_IMAGE)
+        dmg[SS + entry * ENTRY + off] = b
+        try:
+            listed = _list_volume(dmg)
+        except Exception:                    # an exception escaping here takes the whole directory down: a violation
+            return 0
+        for i in range(NFILES):
+            if i != entry and _FILES[i] not in listed:
+                return 0                     # every other item still listed under its name, audio unchanged
+        if len(listed) > NFILES:
+            return 0
     return 1
 
 
